@@ -236,12 +236,36 @@ func (n *chainnode) Mean(field string) *InfluxQLNode {
 	return i
 }
 
+// floatAggregateSlice wraps the slice reduce function of an aggregation (not a selector).
+// The reduced points never carry the time of an input point, so the batch time is always used.
+// The influxdb median and mode functions return the input point itself for a single point.
+func floatAggregateSlice(fn query.FloatReduceSliceFunc) query.FloatReduceSliceFunc {
+	return func(a []query.FloatPoint) []query.FloatPoint {
+		points := fn(a)
+		for i := range points {
+			points[i].Time = query.ZeroTime
+		}
+		return points
+	}
+}
+
+// integerAggregateSlice is floatAggregateSlice for integer points.
+func integerAggregateSlice(fn query.IntegerReduceSliceFunc) query.IntegerReduceSliceFunc {
+	return func(a []query.IntegerPoint) []query.IntegerPoint {
+		points := fn(a)
+		for i := range points {
+			points[i].Time = query.ZeroTime
+		}
+		return points
+	}
+}
+
 // Compute the median of the data. Note, this method is not a selector,
 // if you want the median point use `.percentile(field, 50.0)`.
 func (n *chainnode) Median(field string) *InfluxQLNode {
 	i := newInfluxQLNode("median", field, n.Provides(), StreamEdge, ReduceCreater{
 		CreateFloatReducer: func() (query.FloatPointAggregator, query.FloatPointEmitter) {
-			fn := query.NewFloatSliceFuncReducer(query.FloatMedianReduceSlice)
+			fn := query.NewFloatSliceFuncReducer(floatAggregateSlice(query.FloatMedianReduceSlice))
 			return fn, fn
 		},
 		CreateIntegerFloatReducer: func() (query.IntegerPointAggregator, query.FloatPointEmitter) {
@@ -257,11 +281,11 @@ func (n *chainnode) Median(field string) *InfluxQLNode {
 func (n *chainnode) Mode(field string) *InfluxQLNode {
 	i := newInfluxQLNode("mode", field, n.Provides(), StreamEdge, ReduceCreater{
 		CreateFloatReducer: func() (query.FloatPointAggregator, query.FloatPointEmitter) {
-			fn := query.NewFloatSliceFuncReducer(query.FloatModeReduceSlice)
+			fn := query.NewFloatSliceFuncReducer(floatAggregateSlice(query.FloatModeReduceSlice))
 			return fn, fn
 		},
 		CreateIntegerReducer: func() (query.IntegerPointAggregator, query.IntegerPointEmitter) {
-			fn := query.NewIntegerSliceFuncReducer(query.IntegerModeReduceSlice)
+			fn := query.NewIntegerSliceFuncReducer(integerAggregateSlice(query.IntegerModeReduceSlice))
 			return fn, fn
 		},
 	})
